@@ -400,6 +400,16 @@ def traj_cli(run, case, rng, work):
             relocated.append("run_%d" % i)
         argv = [new_paths.get(a, a) for a in argv]
         argv = [base if a == ref[0] else a for a in argv]
+    if rng.random() < .25:
+        # the working directory still holds the exports of an earlier run (warnings are off:
+        # they are replaced without asking)
+        stems = ["merged_trajectory"] if o["merge"] else [stem(n) for n in trajs]
+        if o["use_ref"] and ref is not None:
+            stems.append(stem(ref[0]))
+        for st in stems:
+            for kind in (["tum"] if export == "tum" else ["kitti"] if export == "kitti" else ["tum", "kitti"]):
+                open(os.path.join(out_dir, st + "." + kind), "w").write("1 2 3 4 5 6 7 8 9 10 11 12\n" * 40 if kind == "kitti"
+                                                                          else "0.5 1 2 3 0 0 0 1\n" * 40)
     if not case.get("exe") and rng.random() < .15:
         argv = C01.move_to_config(rng, argv, out_dir, 1 + len(trajs))
     if case.get("exe"):
